@@ -37,7 +37,7 @@ var universeB = map[string]string{
 	// a package named like the name moq gives a parameter that collides with
 	// package chain: renaming the parameter out of one collision walks it into
 	// the next (used by the "rename chain" method only)
-	"u/k/chain/chain.go":     "package chain\n\ntype K struct{ V int }\n",
+	"u/k/chain/chain.go": "package chain\n\ntype K struct{ V int }\n",
 	// two packages of one name whose paths differ only near the root, below long
 	// directory names: the alias moq has to invent repeats most of the path
 	// (used by the "long alias" methods only; no source file gives them an alias)
